@@ -462,6 +462,32 @@ impl Exec {
                     }
                 }
             }
+            Op::IterSteps { map, keys, between } => {
+                let cache = self.cache.clone();
+                let keys64: Vec<u64> = keys.iter().map(|k| *k as u64).collect();
+                let refs: Vec<&u64> = keys64.iter().collect();
+                let kind = if *map { ReadKind::MultiGetMapIter } else { ReadKind::MultiGetIter };
+                let mut plain = if *map { None } else { Some(cache.multi_get_iterator(refs.clone())) };
+                let mut mapped = if *map { Some(cache.multi_get_map_iterator(refs, |value| value ^ 1)) } else { None };
+                for (index, k) in keys.iter().enumerate() {
+                    let got = match catch_unwind(AssertUnwindSafe(|| match (&mut plain, &mut mapped) { (Some(iterator), _) => iterator.next(), (_, Some(iterator)) => iterator.next().map(|value| value.map(|value| value ^ 1)), _ => None })) {
+                        Ok(got) => got,
+                        Err(_) => return Err(Failure::new("C17", "C17/caller-panic", "multi_get iterator next() panicked".to_string())),
+                    };
+                    let Some(got) = got else { return Err(Failure::new("C02", "C02/iterator/shape", format!("{:?} over {:?} ended after {} items", kind, keys, index))); };
+                    self.settle_read(kind, *k, got)?;
+                    self.stats.iterator_steps_after_write += (index > 0) as u32;
+                    if let Some(op) = between.get(index) {
+                        if op.is_write() && index + 1 < keys.len() {
+                            // aim the write at a key the iterator has not yielded yet
+                            let target = keys[index + 1];
+                            let op = match op.clone() { Op::Put { w, ttl, .. } => Op::Put { k: target, w, ttl }, Op::Upsert { value, w, ttl, .. } => Op::Upsert { k: target, value, w, ttl }, Op::Delete { .. } => Op::Delete { k: target }, other => other };
+                            self.exec_op(&op)?;
+                        }
+                    }
+                }
+                self.quiescent_checks("C03")
+            }
             Op::StepWorker => Ok(()),
             Op::Stall { burst } => self.exec_stall(burst),
         }
